@@ -28,9 +28,10 @@ EXTENDS Integers, FiniteSets, Sequences, FiniteSetsExt, TLC
 CONSTANTS Pods, Gangs
 
 VARIABLES member, hold, fw, sat,
+          released,   \* assumed pods that were let through Permit (their binding is under way)
           GangOf,     \* Pods -> Gangs                      (fixed during a behaviour)
           Cfg         \* Gangs -> [min, strict, policy, group]   policy in {"once","waiting","waitrun"}; group \subseteq Gangs
-vars == <<member, hold, fw, sat, GangOf, Cfg>>
+vars == <<member, hold, fw, sat, released, GangOf, Cfg>>
 Fixed == UNCHANGED <<GangOf, Cfg>>
 
 PodsOf(g)    == {p \in Pods : GangOf[p] = g}
@@ -68,22 +69,25 @@ InformerSet(p, bound) ==
     /\ hold'   = IF bound THEN [hold EXCEPT ![p] = "bound"] ELSE hold
     /\ sat'    = IF bound THEN sat \cup {GroupOfPod(p)} ELSE sat
     /\ fw'     = IF bound THEN fw \ {p} ELSE fw
+    /\ released' = IF bound THEN released \ {p} ELSE released
 InformerDelete(p) ==
     /\ Fixed
     /\ member' = [member EXCEPT ![p] = FALSE]
     \* a bound pod is gone; an assumed one stays assumed until the scheduler's own roll-back / PostBind arrives
     /\ hold'   = IF hold[p] = "bound" THEN [hold EXCEPT ![p] = "none"] ELSE hold
     /\ fw'     = fw \ {p}               \* the framework drops a deleted pod from the permit stage (its Unreserve follows)
+    /\ UNCHANGED released                \* a binding that is under way goes on (PostBind or Unreserve will arrive)
     \* the group's once-satisfied mark goes away with the last gang of the group
     /\ sat'    = IF \A g \in GroupOfPod(p) : \A q \in PodsOf(g) : q # p => ~member[q]
                  THEN sat \ {GroupOfPod(p)} ELSE sat
 \* scheduler: p passed Reserve and enters Permit; released = Permit answered Success
 \* (then every parked member of the group is allowed too), otherwise p is parked
-PermitStep(p, released) ==
+PermitStep(p, isReleased) ==
     /\ Fixed
     /\ member[p] /\ hold[p] = "none"
     /\ hold' = [hold EXCEPT ![p] = "assumed"]
-    /\ fw'   = IF released THEN {w \in fw : GangOf[w] \notin GroupOfPod(p)} ELSE fw \cup {p}
+    /\ fw'   = IF isReleased THEN {w \in fw : GangOf[w] \notin GroupOfPod(p)} ELSE fw \cup {p}
+    /\ released' = IF isReleased THEN released \cup {p} \cup {w \in fw : GangOf[w] \in GroupOfPod(p)} ELSE released
     /\ UNCHANGED <<member, sat>>
 \* roll-back of an assumed pod (permit timeout, rejection, bind failure); rej = pods rejected by it
 \* (it may also arrive for a pod the informer already reports bound: the bind was persisted but the call returned
@@ -93,22 +97,24 @@ UnreserveStep(p, rej) ==
     /\ hold[p] \in {"assumed", "bound"}
     /\ hold' = IF hold[p] = "assumed" THEN [hold EXCEPT ![p] = "none"] ELSE hold
     /\ fw'   = (fw \ {p}) \ rej
+    /\ released' = released \ {p}
     /\ UNCHANGED <<member, sat>>
 \* scheduling failure of a pending member (AfterPostFilter)
 FailStep(p, rej) ==
     /\ Fixed
     /\ member[p] /\ hold[p] = "none"
     /\ fw' = fw \ rej
-    /\ UNCHANGED <<member, hold, sat>>
+    /\ UNCHANGED <<member, hold, sat, released>>
 PostBindStep(p) ==
     /\ Fixed
-    /\ hold[p] = "assumed" /\ p \notin fw
+    /\ hold[p] = "assumed" /\ p \in released       \* only a pod that was let through Permit is bound
+    /\ released' = released \ {p}
     /\ hold' = IF member[p] THEN [hold EXCEPT ![p] = "bound"] ELSE [hold EXCEPT ![p] = "none"]  \* a deleted pod holds nothing
     /\ sat'  = sat \cup {GroupOfPod(p)}
     /\ UNCHANGED <<member, fw>>
 
 InitWith(go, c) == /\ member = [p \in Pods |-> FALSE] /\ hold = [p \in Pods |-> "none"]
-                   /\ fw = {} /\ sat = {} /\ GangOf = go /\ Cfg = c
+                   /\ fw = {} /\ sat = {} /\ released = {} /\ GangOf = go /\ Cfg = c
 
 (****************************** design level *******************************)
 \* isGangValidForPermit / Permit of core.go, evaluated after p was added to the waiting set
@@ -138,5 +144,6 @@ DesignOK == [][ \A p \in Pods :
                   /\ DUnreserve(p) => MustReject(p) \ {p} \subseteq RejectRule(p)
                   /\ DFail(p) => MustReject(p) \subseteq RejectRule(p) ]_vars
 \* a parked pod is always an assumed one
-FwSane == \A p \in fw : hold[p] = "assumed"
+FwSane == /\ \A p \in fw : hold[p] = "assumed"
+          /\ fw \cap released = {}
 =============================================================================
